@@ -18,6 +18,21 @@ CLAIMED = {
     note=TB + "lxml's feed semantics (which children are in the tree / complete after a feed) is the model's assumption, validated "
          "by the correspondence only; foreign elements are compared by tag and attributes and are not in the Gallina model.",
     technique="Coq proof over all chunkings of a feed model + exhaustive 2-chunk correspondence", ref='5 C06'),
+ 'C10': dict(
+    text="Theorems, over the same generic node model on which the comparison (C09) is decided: whenever the model accepts a newer object "
+         "type / event type definition, every value valid for the old object type is valid for the new one (enum extension, old|more "
+         "regex, dropped regex), every event valid under the old (object types, event type) is valid under the upgraded pair - also "
+         "along every chain of upgrades -, the sticky-hash pre-image of the event is unchanged and merging any list of old events gives "
+         "the same result or the same conflict; the accepted-upgrade facts (no property or attachment removed, new properties optional, "
+         "object type and merge strategy frozen, single->multi and mandatory->optional only) are derived from the comparison fold, not "
+         "assumed. The pinned enum rule (string prefix) is refuted. Tied to the code by running Ontology.update on every single edit of "
+         "the catalogue, random compound edits and chains, comparing its accept/reject decision with the model's, the real "
+         "EventValidator verdict on valid and invalid events with the model's validity, hashed properties / merge strategies with the "
+         "model's, and for every accepted upgrade re-validating, re-hashing and re-merging every old-valid event.",
+    note=TB + "value spaces of non-enum data types and regex matching are parameters of the model (tabulated from an independent "
+         "statement for the correspondence); the theorems assume the schema engine reads old|more as an alternation (hypothesis "
+         "re_alt) and unique property names (Python dicts).",
+    technique="Coq proof of preservation theorems over the shared ontology node model + decision/validity/config correspondence + re-validation oracle", ref='5 C10'),
  'C13': dict(
     text="Theorems over an executable model of normalize_objects (Python values as a sum type, exact rationals for floats, "
          "sign/coefficient/exponent for Decimals): integer types print the canonical rendering of the integer the input denotes "
